@@ -1113,6 +1113,9 @@ impl<'a> TreeState<'a> {
                 let own_path = format!("{}/{}", abs_dir, own);
                 let fname = if abs_dir != dir && self.rng.chance(1, 5) && !self.files.iter().any(|f| f.path == own_path) && !self.extra.contains_key(&own_path) {
                     own
+                } else if self.cfg.dotfiles && self.rng.chance(1, 6) {
+                    // a dot-file named outright: wildcards pass it by, its own name does not
+                    format!(".inc{}.ledger", k)
                 } else {
                     format!("inc{}.ledger", k)
                 };
